@@ -133,9 +133,21 @@ pub fn run(ctx: &mut Ctx) {
         // reached within N iterations
         let mut jobs: Vec<(f64, u64)> = rs.into_iter().map(|r| (r, budget)).collect();
         let j = rng.below(bounds.len());
-        if bounds[j].is_finite() {
+        // With one thread the run repeats the reference bit for bit, so the next number above
+        // bound j is reached at iteration j+1 for certain. With several threads the bound of this run
+        // may sit an ulp or two higher (summation order): the threshold then needs a margin, and a
+        // bound of (nearly) zero cannot be used at all - an unbounded run that misses its threshold
+        // by an ulp never ends.
+        let r_unbounded = if threads == 1 {
+            Some(next_up(bounds[j]))
+        } else if bounds[j] > 1e-290 {
+            Some(bounds[j] * (1.0 + 1e-6))
+        } else {
+            None
+        };
+        if let (true, Some(r)) = (bounds[j].is_finite(), r_unbounded) {
             for big in [u64::MAX, u64::MAX - 1, 1u64 << 63, budget + 1] {
-                jobs.push((next_up(bounds[j]), big));
+                jobs.push((r, big));
             }
         }
         for (r, run_budget) in jobs {
